@@ -115,6 +115,7 @@ type CheckRun struct {
 	Results   []*ObResult
 	Errs      []string
 	MustFail  []string
+	MustPass  []string
 	Notes     []string
 	Funcs     []string
 	Trusted   map[string]string
@@ -123,6 +124,7 @@ type CheckRun struct {
 	Start     time.Time
 	SolverS   float64
 	ByBackend map[string]int
+	Gone       map[string]bool // functions under contract that no longer exist in the tree
 	LoopCounts map[string]int
 	ParamNames map[string][]string
 	Fallback  []string // functions whose deductive proof was lost and replaced by the bounded fallback
@@ -228,7 +230,11 @@ func runCheck(prop, tier string, rebaseline bool) int {
 		fn := ld.funcs[name]
 		if fn == nil {
 			// the function under contract is gone: its obligations of the baseline are reported as missing
-			run.Notes = append(run.Notes, fmt.Sprintf("contract for %s: no such function in the working tree", name))
+			run.Notes = append(run.Notes, fmt.Sprintf("contract for %s: no such function in the working tree (its obligations are void; its former callers are checked against their own contracts)", name))
+			if run.Gone == nil {
+				run.Gone = map[string]bool{}
+			}
+			run.Gone[name] = true
 			continue
 		}
 		run.Funcs = append(run.Funcs, name)
@@ -246,6 +252,14 @@ func runCheck(prop, tier string, rebaseline bool) int {
 		}
 		run.ParamNames[name] = pn
 		e.verifyFunction(fn, sp)
+		if e.misfit {
+			run.Notes = append(run.Notes, e.notes...)
+			if run.Gone == nil {
+				run.Gone = map[string]bool{}
+			}
+			run.Gone[name] = true
+			continue
+		}
 		for _, er := range e.errs {
 			run.Errs = append(run.Errs, er)
 		}
@@ -317,11 +331,23 @@ func runCheck(prop, tier string, rebaseline bool) int {
 			if i := strings.Index(fn, "/"); i >= 0 {
 				fn = fn[:i]
 			}
-			if ok, report := replayStrings(repo, fn, r.Output, r.File); report != "" {
+			if ok, clean, report := replayStrings3(repo, fn, r.Output, r.File); report != "" {
 				if ok {
 					r.Detail += "\nREPLAYED: the real function violates the clause (failing input listed below: the solver model or an input derived from the constants of the failed query)\n" + report
 				} else {
 					r.Detail += "\nreplay attempted, not reproduced:\n" + report
+					if clean && strings.Contains(r.Name, "/post:") {
+						// the refutation does not replay: the model depends on a dependency that the proof abstracts
+						// (an uninterpreted library function, an unconstrained global). Only refutations that replay on
+						// the real code are trusted; the clause is reported as tested on the candidate inputs, not proved.
+						r.OK = true
+						r.Bounded = true
+						r.Note = "refutation not reproduced"
+						note := fmt.Sprintf("refutation not reproduced: %s has a solver model that the real function does not confirm, and the real function agrees with the independent oracle on every candidate input (the model's, the constants of the query and their case variants); reported as tested, not proved", r.Name)
+						run.Fallback = append(run.Fallback, note)
+						run.Notes = append(run.Notes, note)
+						fmt.Printf("  note: %s\n", note)
+					}
 				}
 			}
 		}
@@ -346,6 +372,7 @@ func runCheck(prop, tier string, rebaseline bool) int {
 	}
 	if tier == "thorough" && !rebaseline && os.Getenv("VERIF_REPO") == "" {
 		mustFailCorpus(run, repo)
+		mustPassCorpus(run, repo)
 	}
 	return finishCheck(run, rebaseline)
 }
@@ -468,7 +495,7 @@ func boundedFallback(run *CheckRun, ld *Loaded, specs *SpecDB, prop, tier string
 		var bad []string
 		for _, a := range aggs {
 			got[a.Name] = true
-			if len(a.Failed) > 0 {
+			if len(a.Failed) > 0 && !isKF(a.Name) {
 				bad = append(bad, a.Name+" ["+a.Failed[0].Res.Status+"]")
 			}
 		}
@@ -613,6 +640,50 @@ func mustFailCorpus(run *CheckRun, repo string) {
 	exec.Command("git", "-C", repo, "worktree", "prune").Run()
 }
 
+// mustPassCorpus (thorough tier): every behaviour-preserving change recorded under /verif/benign is applied
+// to a scratch copy and the quick check is run on the copy; it must stay quiet. Outcomes are recorded in
+// the evidence (an alarm here is a false alarm of the machinery, listed as an engine note, and does not
+// change the verdict on the tree under test).
+func mustPassCorpus(run *CheckRun, repo string) {
+	dirs, _ := filepath.Glob(filepath.Join(verifDir, "benign", "B*"))
+	sort.Strings(dirs)
+	self, _ := os.Executable()
+	for _, d := range dirs {
+		patch := filepath.Join(d, "patch.diff")
+		if _, err := os.Stat(patch); err != nil {
+			continue
+		}
+		tmp, err := os.MkdirTemp("", "verif-mustpass-")
+		if err != nil {
+			continue
+		}
+		scratch := filepath.Join(tmp, "repo")
+		if out, err := exec.Command("git", "-C", repo, "worktree", "add", "--detach", "-q", scratch, "HEAD").CombinedOutput(); err != nil {
+			run.MustPass = append(run.MustPass, fmt.Sprintf("%s: cannot create scratch copy: %v %s", filepath.Base(d), err, out))
+			os.RemoveAll(tmp)
+			continue
+		}
+		res := ""
+		if out, err := exec.Command("git", "-C", scratch, "apply", patch).CombinedOutput(); err != nil {
+			res = fmt.Sprintf("%s: patch does not apply to the current tree (%s)", filepath.Base(d), strings.TrimSpace(firstLines(string(out), 2)))
+		} else {
+			c := exec.Command(self, "check", run.Prop, "quick")
+			c.Env = append(goEnv(), "VERIF_REPO="+scratch, "VERIF_EVIDENCE_DIR="+filepath.Join(tmp, "evidence"), "VERIF_REPLAY_DIR="+filepath.Join(tmp, "replay"))
+			out, _ := c.CombinedOutput()
+			code := c.ProcessState.ExitCode()
+			res = fmt.Sprintf("%s: exit %d, %d violation lines, %d functions through the bounded fallback", filepath.Base(d), code,
+				strings.Count(string(out), "VIOLATION property="), strings.Count(string(out), "note: bounded fallback"))
+			if code != 0 {
+				run.Notes = append(run.Notes, fmt.Sprintf("must-pass corpus: behaviour-preserving change %s raises an alarm (exit %d): a false alarm of the machinery", filepath.Base(d), code))
+			}
+		}
+		run.MustPass = append(run.MustPass, res)
+		exec.Command("git", "-C", repo, "worktree", "remove", "--force", scratch).Run()
+		os.RemoveAll(tmp)
+	}
+	exec.Command("git", "-C", repo, "worktree", "prune").Run()
+}
+
 func okStr(b bool) string {
 	if b {
 		return "holds"
@@ -749,6 +820,11 @@ func finishCheck(run *CheckRun, rebaseline bool) int {
 		if _, ok := have[name]; !ok {
 			if !strings.HasPrefix(name, "gen[") && !strings.HasPrefix(name, "module/") && !strings.HasPrefix(name, "template/") && !contractKind(name) {
 				// an operation, call or loop of the pinned tree that no longer exists cannot fail
+				continue
+			}
+			if f := obFn(name); run.Gone[f] {
+				// the function under contract itself no longer exists (inlined away, merged, renamed): what it
+				// promised is void; every function that used to call it is checked against its own contract
 				continue
 			}
 			failed = append(failed, &ObResult{Name: name, Status: "missing", Backend: "govc", Note: "obligation proved on the pinned tree is no longer generated from the current source (contract clause, function or emitted function disappeared) " + strings.Join(run.Notes, "; ")})
@@ -927,6 +1003,7 @@ func writeEvidence(run *CheckRun, kfLines []string, violations int) {
 		"known_findings":           kfLines,
 		"engine_messages":          append(append([]string{}, run.Errs...), run.Notes...),
 		"must_fail_corpus":         run.MustFail,
+		"must_pass_corpus":         run.MustPass,
 		"bounded_fallback":         run.Fallback,
 	}
 	if n == 0 {
